@@ -169,4 +169,36 @@ inductive LockSite
 def lockSitesModel : List LockSite :=
   [.fuseCorrInInit, .fuseParamInInit, .pairSrcInInit, .pairRefInInit, .statsWindowBeforeWorkers, .statsSumsBeforeWorkers]
 
+/-! ### The compute steps and the one model object
+
+`RasterFuse.process` hands one `KernelModel` object to every block.  The machine above takes the value a job writes to be a
+function of the job alone (`val` in `applyWrites`); that is an assumption about `fit` and `apply`, made explicit here: the
+object is a state `σ` that `fit` may store into and that both methods may read.  `Props/C04.lean` proves that a model whose
+`fit` leaves the state alone computes, under every interleaving of the blocks' compute steps, what it computes for the block on
+its own - and that a model which does store into it (a note about "the last block fitted") does not. -/
+
+structure SharedModel (σ P V : Type) where
+  fit : σ → Nat → σ × P
+  apply : σ → Nat → P → V
+
+/-- compute events of a run: block `j` is fitted; block `j` is corrected with the parameters of its own latest fit -/
+inductive CEv | fit (j : Nat) | apply (j : Nat) deriving Repr, DecidableEq
+
+/-- the corrected blocks `(j, value)` a sequence of compute events produces, from model state `s` and the parameters fitted so far -/
+def runCompute {σ P V : Type} (m : SharedModel σ P V) : σ → (Nat → Option P) → List CEv → List (Nat × V)
+  | _, _, [] => []
+  | s, ps, .fit j :: es => runCompute m (m.fit s j).1 (fun k => if k = j then some (m.fit s j).2 else ps k) es
+  | s, ps, .apply j :: es =>
+    match ps j with
+    | some p => (j, m.apply s j p) :: runCompute m s ps es
+    | none => runCompute m s ps es
+
+/-- no method stores into the object: `fit` returns the state it was given -/
+def SharedModel.Stateless {σ P V : Type} (m : SharedModel σ P V) : Prop := ∀ s j, (m.fit s j).1 = s
+
+/-- the stores into the shared model object (its class, a global, a non-local) by methods other than `__init__` that the machine
+    assumes: none (tied to the source text by `src_C04_model_state`) -/
+def sharedModelWritesModel : List String := []
+
+
 end Homonim
